@@ -83,7 +83,7 @@ TPostLookup == Is("PostLookup") /\ (E.found <=> pending[E.id] # "none") /\ R!Pos
 \* without the backend (502 of ReverseProxy, 4xx of the shim) and the proxy hands that over
 KindOf(st) == IF st = 502 THEN "502" ELSE "status" \o ToString(st)
 LocalHandoff(i, st) ==
-  /\ w[i] = "forward" /\ wreq[i] \in TVictims /\ st # 200
+  /\ w[i] = "forward" /\ wreq[i] \in TVictims    \* (any status: the shim answers its own calls, 200 included)
   /\ plook[i] \notin {"none", "nf"} /\ pc[plook[i]] = "waiting"
   /\ inflight' = [inflight EXCEPT ![plook[i]] = <<KindOf(st), wreq[i]>>]
   /\ wresp' = [wresp EXCEPT ![i] = <<KindOf(st), wreq[i]>>]
